@@ -3,6 +3,7 @@ open GqlVerif.C19
 #print axioms cli_options_map
 #print axioms cli_options_refused
 #print axioms dest_path
+#print axioms dest_path_beside
 #print axioms dest_path_none
 #print axioms dest_path_trailing
 #print axioms stem_spec
@@ -10,3 +11,4 @@ open GqlVerif.C19
 #print axioms output_is_header_then_lib
 #print axioms gen_error_no_file
 #print axioms gen_error_reported
+#print axioms old_with_extension_quirk
